@@ -418,9 +418,51 @@ def top(x, y):
 def main(x):
     return top(x + 100, x + 200)
 """, "main(1)"),
+    # a failing child handled by catch_all directly under a shallow task (the failed job's error
+    # CallNode is recorded and is a child of `top` in the call tree); the edit repairs the failing task
+    "caught": ("""
+from redun.scheduler import catch_all
+@task(name="leaf", namespace="rvw")
+def leaf(x):
+    return {leaf}
+@task(name="recover", namespace="rvw")
+def recover(values):
+    return [-1 if isinstance(v, Exception) else v for v in values]
+@task(name="top", namespace="rvw", check_valid="shallow")
+def top(x):
+    return catch_all([leaf(x), leaf(x + 1)], ValueError, recover)
+@task(name="main", namespace="rvw")
+def main(x):
+    return top(x)
+""", "main(1)"),
+    # a failing grandchild (leaf) under a failing child (inner) under a child that succeeds by recovery (mid)
+    "caught_deep": ("""
+from redun.scheduler import catch_all
+@task(name="leaf", namespace="rvw")
+def leaf(x):
+    return {leaf}
+@task(name="inner", namespace="rvw")
+def inner(x):
+    return [leaf(x)]
+@task(name="recover", namespace="rvw")
+def recover(values):
+    return [-1 if isinstance(v, Exception) else v for v in values]
+@task(name="mid", namespace="rvw")
+def mid(x):
+    return catch_all([inner(x)], ValueError, recover)
+@task(name="top", namespace="rvw", check_valid="shallow")
+def top(x):
+    return mid(x)
+@task(name="main", namespace="rvw")
+def main(x):
+    return [top(x), 7]
+""", "main(1)"),
 }
-LEAF_V1 = {"chain": "x + 1", "cse": "x + 1", "two_args": "x + y"}
-LEAF_V2 = {"chain": "x + 1000", "cse": "x + 1000", "two_args": "x * y"}
+# workloads whose jobs the model covers (no failed jobs, no scheduler tasks): traces, C22 sweep
+MODELLED_WORKLOADS = ("chain", "cse", "two_args")
+LEAF_V1 = {"chain": "x + 1", "cse": "x + 1", "two_args": "x + y",
+           "caught": "int('bad' + str(x))", "caught_deep": "int('bad' + str(x))"}
+LEAF_V2 = {"chain": "x + 1000", "cse": "x + 1000", "two_args": "x * y", "caught": "x + 100", "caught_deep": "x + 100"}
 
 
 _WL = {"n": 0}
